@@ -198,19 +198,18 @@ Fixpoint chain (prev : option bytes) (data : list bytes) : Prop :=
   | e :: rest => match prev with Some p => bleb p e = true | None => True end /\ chain (Some e) rest
   end.
 
-Lemma validate_prev : forall r st e st', ar_lex r = true -> validate r false st e = Ok st' ->
+Lemma validate_prev : forall r st e st', ar_lex r = true -> validate r st e = Ok st' ->
   vs_prev st' = Some e /\ (forall p, vs_prev st = Some p -> bleb p e = true).
 Proof.
   intros r st e st' Hl H. unfold validate in H. rewrite Hl in H. rewrite andb_false_r in H. cbn [bind] in H.
   apply bind_ok in H as [st2 [H2 H]]. apply bind_ok in H as [st3 [H3 H]].
-  assert (Hm : mkprev false e = Some e) by (destruct e; reflexivity).
   assert (P2 : vs_prev st2 = Some e /\ (forall p, vs_prev st = Some p -> bleb p e = true)).
   { destruct (vs_prev st) as [p |] eqn:Ep.
     - unfold bleb. destruct (bcmp p e) eqn:Ec; try discriminate.
-      + destruct (ar_nodup r); try discriminate. apply ok_inj in H2 as <-. cbn [vs_prev]. rewrite Hm.
+      + destruct (ar_nodup r); try discriminate. apply ok_inj in H2 as <-. cbn [vs_prev].
         split; auto. intros p0 Hp0. inversion Hp0; subst. rewrite Ec. reflexivity.
-      + apply ok_inj in H2 as <-. cbn [vs_prev]. rewrite Hm. split; auto. intros p0 Hp0. inversion Hp0; subst. rewrite Ec. reflexivity.
-    - apply ok_inj in H2 as <-. cbn [vs_prev]. rewrite Hm. split; auto. discriminate. }
+      + apply ok_inj in H2 as <-. cbn [vs_prev]. split; auto. intros p0 Hp0. inversion Hp0; subst. rewrite Ec. reflexivity.
+    - apply ok_inj in H2 as <-. cbn [vs_prev]. split; auto. discriminate. }
   destruct P2 as [P2 P2'].
   assert (P3 : vs_prev st3 = Some e).
   { destruct (ar_one8 r); [| apply ok_inj in H3 as <-; exact P2]. destruct e as [| c e']; try discriminate.
@@ -221,7 +220,7 @@ Proof.
   apply ok_inj in H as <-. exact P3.
 Qed.
 
-Lemma vfold_chain : forall r, ar_lex r = true -> forall data st st', vfold r false st data = Ok st' -> chain (vs_prev st) data.
+Lemma vfold_chain : forall r, ar_lex r = true -> forall data st st', vfold r st data = Ok st' -> chain (vs_prev st) data.
 Proof.
   intros r Hl. induction data as [| e rest IH]; intros st st' H; simpl in *; auto.
   apply bind_ok in H as [st1 [H1 H]]. destruct (validate_prev _ _ _ _ Hl H1) as [Hp Hq].
@@ -241,14 +240,14 @@ Proof.
 Qed.
 
 Lemma vfold_validate_all : forall r data st st', Forall (fun d => d <> []) data ->
-  vfold r false st data = Ok st' -> validate_all r true st data = Ok tt.
+  vfold r st data = Ok st' -> validate_all r st data = Ok tt.
 Proof.
   induction data as [| e rest IH]; intros st st' Hne H; simpl in *; auto.
   inversion Hne; subst. apply bind_ok in H as [st1 [H1 H]].
-  rewrite validate_nilempty by assumption. rewrite H1. cbn [bind]. eapply IH; eauto.
+  rewrite H1. cbn [bind]. eapply IH; eauto.
 Qed.
 
-Lemma no_validator_validate_all : forall r ne data st, has_validator r = false -> validate_all r ne st data = Ok tt.
+Lemma no_validator_validate_all : forall r data st, has_validator r = false -> validate_all r st data = Ok tt.
 Proof.
   induction data as [| e rest IH]; intros st H; simpl; auto.
   rewrite validate_no_validator by assumption. cbn [bind]. apply IH; assumption.
@@ -317,7 +316,7 @@ Section LoopInv.
       a = fold_left (fun acc x => push x acc) xs acc /\ length xs = fuel /\
       Forall2 P xs data /\ concat data = firstn m b /\ (fuel <= m)%nat /\
       Forall (fun d => d <> []) data /\
-      (has_validator r = true -> vfold r false st data = Ok st').
+      (has_validator r = true -> vfold r st data = Ok st').
   Proof.
     induction fuel as [| k IH]; intros st acc b a m Hw H; simpl in H.
     - apply ok_inj in H. inversion H; subst. exists [], [], st. repeat split; auto.
@@ -349,18 +348,18 @@ Lemma enc_seq_of_decoded : forall l r b cnt data m st',
   N.of_nat (length data) = cnt ->
   concat data = firstn m (skipn (lpt_size l) b) ->
   Forall (fun d => d <> []) data ->
-  (has_validator r = true -> vfold r false vinit data = Ok st') ->
+  (has_validator r = true -> vfold r vinit data = Ok st') ->
   enc_seq true l r data = Ok (firstn (lpt_size l + m) b).
 Proof.
   intros l r b cnt data m st' Hw Hr Hcb Hcnt Hc Hne Hvf. unfold enc_seq. unfold bytes in *.
   rewrite Hcnt, Hcb. cbn [bind]. rewrite (write_read_len _ _ _ Hw Hr). cbn [bind]. cbv zeta.
-  match goal with |- context [validate_all r true vinit ?X] => assert (Hsort : X = data) end.
+  match goal with |- context [validate_all r vinit ?X] => assert (Hsort : X = data) end.
   { destruct (ar_autosort r && ar_lex r) eqn:E; auto. apply andb_prop in E as [_ El].
     assert (Hh : has_validator r = true). { unfold has_validator. rewrite El. rewrite orb_true_r. reflexivity. }
     specialize (Hvf Hh). apply (vfold_chain _ El) in Hvf. apply chain_sorted in Hvf as [Hs _].
     apply sort_on_sorted_id. exact Hs. }
   rewrite Hsort.
-  assert (Hva : validate_all r true vinit data = Ok tt).
+  assert (Hva : validate_all r vinit data = Ok tt).
   { destruct (has_validator r) eqn:Hh.
     - eapply vfold_validate_all; eauto.
     - apply no_validator_validate_all; assumption. }
